@@ -9,14 +9,14 @@ _NOTE = ("Static analysis of /repo's current source (Python ast, own name resolu
 _SITE_RULE = "one obligation per (rule, site); a site is non-trivial when the rule matched a real construct of the repository"
 
 PROPERTIES: dict[str, dict] = {
-    "C01": {"title": "Superadditive bounds always contain the true game", "rules": [bounds.rule_bounds],
+    "C01": {"title": "Superadditive bounds always contain the true game", "rules": [bounds.rule_bounds, coalitions.rule_e_enum, game.rule_c17_columns],
             "explanation": _NOTE + " C01: abstract interpretation of both superadditive computers in the coalition-class domain: "
-            "B1 write discipline, B2 coverage, B3 size order, B4 fresh reads, B5 phase order, B6s/B7s soundness shape of the recurrences, B10 relation-table agreement.",
+            "B1 write discipline, B2 coverage, B3 size order, B4 fresh reads, B5 phase order, B6s/B7s soundness shape of the recurrences, B10 relation-table agreement; E-enum completeness of the sub/super enumerations; G1 column discipline of the getters/setters the computers use.",
             "rule": _SITE_RULE},
-    "C02": {"title": "Superadditive bounds are tight", "rules": [bounds.rule_bounds],
-            "explanation": _NOTE + " C02: B6 lower = MAX over exactly all proper non-empty sub-coalitions, B7 upper = MIN over exactly all known proper supersets, B3 order.",
+    "C02": {"title": "Superadditive bounds are tight", "rules": [bounds.rule_bounds, coalitions.rule_e_enum],
+            "explanation": _NOTE + " C02: B6 lower = MAX over exactly all proper non-empty sub-coalitions, B7 upper = MIN over exactly all known proper supersets, B3 order, E-enum completeness of the enumeration helpers in both representations.",
             "rule": _SITE_RULE},
-    "C03": {"title": "Cached and reference computers interchangeable", "rules": [bounds.rule_bounds],
+    "C03": {"title": "Cached and reference computers interchangeable", "rules": [bounds.rule_bounds, coalitions.rule_e_enum],
             "explanation": _NOTE + " C03: B8 term-equality of the two normalised write schedules, B9 cache hygiene (pure, keyed by n, never mutated by callers), B10 relation-table agreement, REG-B registry/CLI selection.",
             "rule": _SITE_RULE},
     "C04": {"title": "Approximate SAM bounds", "rules": [bounds.rule_bounds],
